@@ -22,6 +22,9 @@
        ROI mismatch (missing dimension: encoded as -1 in [Image])
      - C13-length-of-empty-dataset: without event count and with only empty
        features the length is 0
+     - C13-invalid-event-count: a negative event count is ignored for the
+       length and reported; C13-polygon-points-rank: polygon points that are
+       not two-dimensional are a wrong shape (missing dimension: -1)
    and with dclab commit ea8e52b (rectify_metadata takes the event count from
    the first trace dataset when "trace" is the alphabetically first feature;
    [rectify_gen false] is the behaviour before that commit). *)
@@ -249,17 +252,21 @@ Definition reader_entries (f : file) : list (Z * Z) :=
   ++ (if ntraces f =? 0 then [] else [(f_trace_rank f, ntraces f)]).
 
 (* len(ds); None: ValueError "Could not determine size of dataset" *)
+Definition length_from_features (f : file) : option Z :=
+  match sort_by_rank (reader_entries f) with
+  | [] => None                       (* no feature at all: ValueError *)
+  | es => match first_nonzero es with
+          | Some n => Some n
+          | None => Some 0           (* all features are empty *)
+          end
+  end.
+
+(* a negative stored event count is invalid and ignored
+   (fixes_proposed/C13-invalid-event-count) *)
 Definition lends (f : file) : option Z :=
   match f_evcount f with
-  | Some n => Some n
-  | None =>
-      match sort_by_rank (reader_entries f) with
-      | [] => None                       (* no feature at all: ValueError *)
-      | es => match first_nonzero es with
-              | Some n => Some n
-              | None => Some 0           (* all features are empty *)
-              end
-      end
+  | Some n => if 0 <=? n then Some n else length_from_features f
+  | None => length_from_features f
   end.
 
 Definition flmax_innate (f : file) (i : Z) : bool :=
@@ -403,7 +410,12 @@ Definition check_metadata_bad_greater_zero (f : file) : list cue :=
               match snd kv with
               | Some v => if v <=? 0 then [NonPositive (fst kv)] else []
               | None => []
-              end) (greater_zero_values f).
+              end) (greater_zero_values f)
+  (* the event count may be zero, but not negative *)
+  ++ match f_evcount f with
+     | Some v => if v <? 0 then [NonPositive k_event_count] else []
+     | None => []
+     end.
 
 (* VALID_CHOICES = {} *)
 Definition check_metadata_choices (f : file) : list cue := [].
@@ -710,6 +722,22 @@ Definition derive_model (g : file) (keep : list Z) (keep_trace : bool)
   (extra : list feat) (n : Z) : option file :=
   rectify (derive_input g keep keep_trace extra n).
 
+(* features a tool may add: scalar (ancillary) features, an enumerating
+   index, ml_class - all with the new number of events *)
+Definition extra_ok (n : Z) (ft : feat) : bool :=
+  match ft_data ft with
+  | Plain l => l =? n
+  | Index v => index_ok v n
+  | MlClass l => l =? n
+  | _ => false
+  end.
+
+(* every fl?_max feature of the source is kept *)
+Definition keeps_channels (keep : list Z) (fl : file) : bool :=
+  forallb (fun ft => match ft_data ft with
+                     | FlMax _ _ => memZ (ft_rank ft) keep
+                     | _ => true end) (f_feats fl).
+
 (* ------------------------------------------------------------------ *)
 (* entry points for the harness (flat case encoding)                   *)
 (* ------------------------------------------------------------------ *)
@@ -849,3 +877,19 @@ Definition run_copy_flat (p : case * Z) : list (list (list Z)) :=
    written file *)
 Definition run_rectify_flat (c : case) : list (list (list Z)) :=
   ofile_flat (rectify (file_of_case c)).
+
+(* the hypotheses of the theorems about written and derived files, evaluated
+   on the generated inputs: [complete_input pre n] for the abstraction of the
+   writer's file just before it closes *)
+Definition run_hyp_writer_flat (p : case * Z) : list (list (list Z)) :=
+  [[[bz (complete_input (file_of_case (fst p)) (snd p))]]].
+
+(* the guards of derived_output_clean on a derived file's source and
+   request: [[keeps_channels]; [all added features are extra_ok]] *)
+Definition run_hyp_derive_flat (p : case * list (list Z) * list (list Z))
+  : list (list (list Z)) :=
+  let '(c, par, extra) := p in
+  let keep := nth 0 par [] in
+  let n := match nth 2 par [] with v :: _ => v | [] => 0 end in
+  [[[bz (keeps_channels keep (file_of_case c))];
+    [bz (forallb (extra_ok n) (map mk_feat extra))]]].
